@@ -654,6 +654,15 @@ func genCorr(g *Gen) (corr, bool) {
 	if h < 6 { // coarse grids: keep the line within a cell or two
 		b = [3]float64{a[0] + (g.R.Float64()*2-1)*0.8*cl, a[1] + (g.R.Float64()*2-1)*0.5*cl*math.Cos(a[1]*math.Pi/180), a[2] + (g.R.Float64()*2-1)*ca}
 		kind += "+coarse"
+		if h >= 2 && g.Chance(0.3) {
+			// a line across (almost) all columns of a coarse grid: with the layers added on both sides the search box wraps around the
+			// world onto itself, so one voxel is reached through two different shifts (it must still be returned once)
+			span := float64(n) - 2 + 1.9*g.R.Float64()
+			lon0 := -180 + 0.01 + g.R.Float64()*0.4*cl
+			a = [3]float64{lon0, a[1], a[2]}
+			b = [3]float64{math.Min(179.99, lon0+span*cl), a[1] + (g.R.Float64()*2-1)*0.3*cl*math.Cos(a[1]*math.Pi/180), a[2] + (g.R.Float64()*2-1)*ca}
+			kind = "world-span+coarse"
+		}
 	}
 	var ok1, ok2 bool
 	c.p1, ok1 = stored(a[0], a[1], a[2])
